@@ -87,16 +87,18 @@ def scenarios(tier, rng):
                 # the digit list is handed to from_base_le and from_base_be as it is
                 sc.append({"g": "text", "op": "frombase", "bits": bits, "base": tobytes(b), "ds": [tobytes(d) for d in ds]})
         # --- formatting
-        fvs = vs if not quick else [0, mx] + rng.sample(vs, min(2, len(vs)))
+        fvs = ([0, mx] + rng.sample(vs, min(8, len(vs)))) if not quick else [0, mx] + rng.sample(vs, min(2, len(vs)))
         if big:
             fvs = [mx, 10**19]
         for a in fvs:
             combos = [(t, f, al) for t in TRAITS for f in FLAGS for al in ALIGNS]
             if quick or big:
                 combos = rng.sample(combos, 24 if not big else 12) + [(t, "", "") for t in TRAITS]
+            elif bits not in QUICK_TEXT_WIDTHS:
+                combos = rng.sample(combos, 60) + [(t, "", "") for t in TRAITS]
             for (t, f, al) in combos:
                 ln = len(text_of(a, {"d": 10, "?": 10, "b": 2, "o": 8, "x": 16, "X": 16}[t], A36))
-                for w in rng.sample([None, 1, 20, ln - 1, ln, ln + 1, ln + 3, ln + 4], 3 if quick else 8):
+                for w in rng.sample([None, 1, 20, ln - 1, ln, ln + 1, ln + 3, ln + 4], 3 if quick else 4):
                     if w is not None and w < 0:
                         continue
                     d = {"g": "text", "op": "fmt", "bits": bits, "a": tobytes(a), "tr": t, "fl": f, "al": al,
